@@ -10,7 +10,7 @@ import LolHtml.Basic
 
 namespace LolHtml.Model
 
-/-- mutations.rs:9 `ContentType`. -/
+/-- mutations.rs:10 `ContentType`. -/
 inductive ContentType
   | html
   | text
@@ -26,21 +26,21 @@ inductive StringChunk
   | stream (writes : List (Bytes × ContentType))
 deriving DecidableEq, Repr, Inhabited
 
-/-- One chunk through the sink (mutations.rs:131-145, body of the `for`). -/
+/-- One chunk through the sink (mutations.rs:134-148, body of the `for`). -/
 def StringChunk.encode (enc : Enc) : StringChunk → Bytes
   | .buffer c t => enc t c
   | .stream ws => ws.flatMap fun w => enc w.2 w.1
 
-/-- mutations.rs:106 `DynamicString` = `Vec<StringChunk>`. -/
+/-- mutations.rs:108 `DynamicString` = `Vec<StringChunk>`. -/
 abbrev DynamicString := List StringChunk
 
-/-- mutations.rs:123 `push_front` = `insert(0, chunk)`. -/
+/-- mutations.rs:124 `push_front` = `insert(0, chunk)`. -/
 def dsPushFront (d : DynamicString) (c : StringChunk) : DynamicString := c :: d
 
-/-- mutations.rs:128 `push_back` = `push(chunk)`. -/
+/-- mutations.rs:129 `push_back` = `push(chunk)`. -/
 def dsPushBack (d : DynamicString) (c : StringChunk) : DynamicString := d ++ [c]
 
-/-- mutations.rs:131 `DynamicString::encode`. -/
+/-- mutations.rs:133 `DynamicString::encode`. -/
 def encodeDyn (enc : Enc) (d : DynamicString) : Bytes := d.flatMap (StringChunk.encode enc)
 
 /-- mutations.rs:20 `MutationsInner`. -/
@@ -63,7 +63,7 @@ structure Mutations where
   inner : Option MutationsInner := none
 deriving DecidableEq, Repr, Inhabited
 
-/-- mutations.rs:62 `mutate()`: the inner record, allocated empty on first use. The caller writes the
+/-- mutations.rs:63 `mutate()`: the inner record, allocated empty on first use. The caller writes the
 updated record back with `Mutations.set`. -/
 def Mutations.mutate (m : Mutations) : MutationsInner :=
   match m.inner with
@@ -72,7 +72,7 @@ def Mutations.mutate (m : Mutations) : MutationsInner :=
 
 def Mutations.set (_m : Mutations) (i : MutationsInner) : Mutations := ⟨some i⟩
 
-/-- mutations.rs:85 `removed()`. -/
+/-- mutations.rs:83 `removed()`. -/
 def Mutations.removed (m : Mutations) : Bool :=
   match m.inner with
   | some i => i.removed
@@ -87,7 +87,7 @@ inductive MutOp
   | remove
 deriving DecidableEq, Repr, Inhabited
 
-/-- start_tag.rs:162-231 / end_tag.rs:88-157 / comment.rs / text_chunk.rs: the bodies are identical:
+/-- start_tag.rs:163-230 / end_tag.rs:88-158 / comment.rs / text_chunk.rs: the bodies are identical:
 `before` = `content_before.push_back`, `after` = `content_after.push_front`,
 `replace` = `mutate().replace`, `remove` = `mutate().remove`. -/
 def Mutations.apply (m : Mutations) : MutOp → Mutations
@@ -96,7 +96,7 @@ def Mutations.apply (m : Mutations) : MutOp → Mutations
   | .replace c => m.set (m.mutate.replace c)
   | .remove => m.set m.mutate.remove
 
-/-- tokens/mod.rs:17-52 `impl_serialize!`: `self_` is what `serialize_self` writes. -/
+/-- tokens/mod.rs:16-52 `impl_serialize!`: `self_` is what `serialize_self` writes. -/
 def Mutations.serialize (enc : Enc) (m : Mutations) (self_ : Bytes) : Bytes :=
   match m.inner with
   | none => self_
@@ -116,7 +116,7 @@ def escapeBodyText : Bytes → Bytes
      else if b == 38 then [38, 97, 109, 112, 59]
      else [b]) ++ escapeBodyText rest
 
-/-- streaming_sink.rs:56-89 for a UTF-8 document: HTML as is, text escaped. -/
+/-- streaming_sink.rs:49-113 for a UTF-8 document: HTML as is, text escaped. -/
 def encUtf8 : Enc
   | .html, s => s
   | .text, s => escapeBodyText s
